@@ -167,7 +167,7 @@ PanicRegsOk(v, eff, reason, oregs) ==
     \/ /\ reason = "OutOfGas" /\ ~CanPay(v, eff.gas) /\ oregs = WithRegs(v, OutOfGasRegs(v))
     \/ /\ reason \in eff.pan
        /\ \E g \in {<<>>} \cup {Charged(v, x) : x \in {y \in eff.gst \cup {eff.gas} : CanPay(v, y)}} :
-          \E m \in {<<>>, eff.pmay} : oregs = WithRegs(v, g @@ m)
+          \E m \in {<<>>, eff.pmay} : oregs = WithRegs(v, m @@ g)     \* (pmay first: CALL's may-write is $cgas itself)
 
 \* outcome of an exactly modelled instruction executed through Interpreter::instruction (mode "exec")
 ExactExec(v, eff, oregs, omem) ==
